@@ -87,10 +87,15 @@ package keeper
 //@       && Shard[shardId].Sp == old(Shard[shardId].Sp) && Shard[shardId].Size_ == old(Shard[shardId].Size_) && Shard[shardId].Pledge == old(Shard[shardId].Pledge) && Shard[shardId].Status == old(Shard[shardId].Status)
 //@   ensures [C11.expire.resched] [C13.expire.resched] [C06.expire.resched] old(has(Shard, shardId)) && old(has(Order, Shard[shardId].OrderId)) && len(old(Shard[shardId].RenewInfos)) > 0 ==>
 //@       has(ExpiredShard, u64(H + old(Shard[shardId].RenewInfos)[0].Duration)) && contains(ExpiredShard[u64(H + old(Shard[shardId].RenewInfos)[0].Duration)].ShardList, shardId)
+//@   ensures [C13.expire.delisted] old(has(Shard, shardId)) && old(has(Order, Shard[shardId].OrderId)) && has(Order, old(Shard[shardId].OrderId))
+//@       && old(forall a int, b int :: 0 <= a && a < b && b < len(Order[Shard[shardId].OrderId].Shards) ==> Order[Shard[shardId].OrderId].Shards[a] != Order[Shard[shardId].OrderId].Shards[b])
+//@       && (len(old(Shard[shardId].RenewInfos)) == 0 || old(Shard[shardId].RenewInfos)[0].OrderId != old(Shard[shardId].OrderId)) ==>
+//@       !contains(Order[old(Shard[shardId].OrderId)].Shards, shardId)
 //@   ensures [C11.expire.absent] !old(has(Shard, shardId)) ==> !has(Shard, shardId)
 //@   ensures [C13.expire.lastshard] old(has(Shard, shardId)) && old(has(Order, Shard[shardId].OrderId)) && len(old(Order[Shard[shardId].OrderId].Shards)) == 1
 //@       && old(Order[Shard[shardId].OrderId].Shards)[0] == shardId ==> !has(Order, old(Shard[shardId].OrderId))
 //@   loop L1 invariant -1 <= rangeindex && rangeindex < len(order.Shards)
+//@   loop L1 invariant [C13.expire.delisted] order.Shards == entry(order.Shards) && (forall j int :: 0 <= j && j <= rangeindex ==> order.Shards[j] != shardId0)
 //@   loop L1 decreases [C02.expire.term] len(order.Shards) - rangeindex
 
 
